@@ -37,7 +37,9 @@ EXTENDS Integers, Sequences, FiniteSets, TLC
 CONSTANTS Sessions,      \* ceremony sessions (session hashes)
           Allowed,       \* message ids registered with RegisterMessageIDFuncs
           HashSession, HashId, DedupMode,
-          AllowRelay     \* the named deviation RelayForeignPayload is enabled
+          AllowRelay,    \* the named deviation RelayForeignPayload is enabled
+          AtomicDedup    \* TRUE: dedupHash compares AND records under one hold of s.mu, before signing (the tree);
+                         \* FALSE (control): compare, sign, record afterwards (check-then-act)
 
 VARIABLES cfg,        \* [n |-> cluster size, faulty |-> set of faulty members]
           dedup,      \* [honest m -> [session -> set of [req, id, pl]]]   server.dedup of m's component
@@ -45,8 +47,10 @@ VARIABLES cfg,        \* [n |-> cluster size, faulty |-> set of faulty members]
           known,      \* signatures by honest members that the faulty members have seen
           raw,        \* history: [honest r -> [session -> set of [from, id, pl]]] callback invocations
           relay,      \* history: the same, for invocations through the deviation RelayForeignPayload
-          client      \* [honest h -> [session -> [act, id, pl, got]]] a running client.Broadcast
-vars == <<cfg, dedup, signed, known, raw, relay, client>>
+          client,     \* [honest h -> [session -> [act, id, pl, got]]] a running client.Broadcast
+          pend        \* signature requests of faulty members that are inside handleSigRequest concurrently:
+                      \* set of [k, m, s, req, id, pl, st], st = "called" | "checked" | "ok" | "no"
+vars == <<cfg, dedup, signed, known, raw, relay, client, pend>>
 
 Members == 1..cfg.n
 Faulty == cfg.faulty
@@ -65,6 +69,7 @@ InitWith(c) ==
   /\ raw = [m \in (1..c.n) \ c.faulty |-> [s \in Sessions |-> {}]]
   /\ relay = [m \in (1..c.n) \ c.faulty |-> [s \in Sessions |-> {}]]
   /\ client = [m \in (1..c.n) \ c.faulty |-> [s \in Sessions |-> Idle]]
+  /\ pend = {}
 
 ---------------------------------------------------------------------------------------------------
 (* newHashAny: what a signature is bound to. *)
@@ -108,7 +113,7 @@ BStart(h, s, id, pl) ==
             /\ client' = [client EXCEPT ![h][s] = [act |-> TRUE, id |-> id, pl |-> pl, got |-> {Sig(h, s, id, pl)}]]
        ELSE /\ UNCHANGED signed
             /\ client' = [client EXCEPT ![h][s] = [act |-> TRUE, id |-> id, pl |-> pl, got |-> {}]]
-  /\ UNCHANGED <<cfg, dedup, known, raw, relay>>
+  /\ UNCHANGED <<cfg, dedup, known, raw, relay, pend>>
 \* the request of h's client is served by honest m
 HSig(h, s, m) ==
   LET c == client[h][s] IN
@@ -116,13 +121,13 @@ HSig(h, s, m) ==
   /\ ServeSig(m, s, h, c.id, c.pl)
   /\ client' = [client EXCEPT ![h][s].got =
                   IF SigOutcome(m, s, h, c.id, c.pl) = "ok" THEN @ \cup {Sig(m, s, c.id, c.pl)} ELSE @]
-  /\ UNCHANGED <<cfg, known, raw, relay>>
+  /\ UNCHANGED <<cfg, known, raw, relay, pend>>
 Forgeable(sig) == sig.by \notin Honest \/ sig \in known
 \* a faulty member answers the request of h's client with whatever it can produce
 FReply(h, s, f, sig) ==
   /\ h \in Honest /\ client[h][s].act /\ f \in Faulty /\ Forgeable(sig)
   /\ client' = [client EXCEPT ![h][s].got = @ \cup {sig}]
-  /\ UNCHANGED <<cfg, dedup, signed, known, raw, relay>>
+  /\ UNCHANGED <<cfg, dedup, signed, known, raw, relay, pend>>
 \* h's client sends its BCastMessage to honest r (only signatures it was given; order/completeness is the
 \* client's business: the receiver decides)
 HSend(h, s, r, sigs) ==
@@ -130,36 +135,63 @@ HSend(h, s, r, sigs) ==
   /\ h \in Honest /\ c.act /\ r \in Honest \ {h}
   /\ \A i \in DOMAIN sigs : sigs[i] \in c.got
   /\ Deliver(r, s, h, c.id, c.pl, sigs)
-  /\ UNCHANGED <<cfg, dedup, signed, known, relay, client>>
+  /\ UNCHANGED <<cfg, dedup, signed, known, relay, client, pend>>
 \* ... and to a faulty member, which thereby sees the signatures
 FRecv(h, s, f, sigs) ==
   LET c == client[h][s] IN
   /\ h \in Honest /\ c.act /\ f \in Faulty
   /\ \A i \in DOMAIN sigs : sigs[i] \in c.got
   /\ known' = known \cup {sigs[i] : i \in {j \in DOMAIN sigs : sigs[j].by \in Honest}}
-  /\ UNCHANGED <<cfg, dedup, signed, raw, relay, client>>
+  /\ UNCHANGED <<cfg, dedup, signed, raw, relay, client, pend>>
 BEnd(h, s) ==
   /\ h \in Honest /\ client[h][s].act
   /\ client' = [client EXCEPT ![h][s] = Idle]
-  /\ UNCHANGED <<cfg, dedup, signed, known, raw, relay>>
+  /\ UNCHANGED <<cfg, dedup, signed, known, raw, relay, pend>>
 
 (* Faulty member f talks to the handlers of honest members directly. *)
 FSig(f, m, s, id, pl) ==
   /\ f \in Faulty /\ m \in Honest
   /\ ServeSig(m, s, f, id, pl)
   /\ known' = IF SigOutcome(m, s, f, id, pl) = "ok" THEN known \cup {Sig(m, s, id, pl)} ELSE known
-  /\ UNCHANGED <<cfg, raw, relay, client>>
+  /\ UNCHANGED <<cfg, raw, relay, client, pend>>
 \* a verifying message of f whose payload is ANOTHER (honest) member's completely signed broadcast: every honest
 \* member signed it in that member's dedup slot; f re-sends it under its own transport identity
 IsRelay(f, s, id, pl, sigs) ==
   /\ Verify(s, id, pl, sigs) /\ pl.origin \in Honest
   /\ \A m \in Honest \ {pl.origin} : [req |-> pl.origin, id |-> id, pl |-> pl] \in dedup[m][s]
+(* The same request, when several of them are inside the handler of one member at the same time (stream handlers run
+   concurrently): call, the critical section of dedupHash + signing (the linearisation point), return.  FSig above
+   is FCall; FLin; FRet without anything in between. *)
+FCall(k, f, m, s, id, pl) ==
+  /\ f \in Faulty /\ m \in Honest /\ \A p \in pend : p.k # k
+  /\ pend' = pend \cup {[k |-> k, m |-> m, s |-> s, req |-> f, id |-> id, pl |-> pl, st |-> "called"]}
+  /\ UNCHANGED <<cfg, dedup, signed, known, raw, relay, client>>
+FLin(p) ==
+  /\ p \in pend /\ p.st = "called"
+  /\ IF AtomicDedup
+       THEN /\ ServeSig(p.m, p.s, p.req, p.id, p.pl)
+            /\ pend' = (pend \ {p}) \cup {[p EXCEPT !.st = IF SigOutcome(p.m, p.s, p.req, p.id, p.pl) = "ok" THEN "ok" ELSE "no"]}
+       ELSE /\ UNCHANGED <<dedup, signed>>            \* only compared
+            /\ pend' = (pend \ {p}) \cup {[p EXCEPT !.st = IF SigOutcome(p.m, p.s, p.req, p.id, p.pl) = "ok" THEN "checked" ELSE "no"]}
+  /\ UNCHANGED <<cfg, known, raw, relay, client>>
+\* control only (AtomicDedup = FALSE): signed, then recorded whatever the map holds by now
+FRecord(p) ==
+  /\ ~AtomicDedup /\ p \in pend /\ p.st = "checked"
+  /\ dedup' = [dedup EXCEPT ![p.m][p.s] = @ \cup {[req |-> p.req, id |-> p.id, pl |-> p.pl]}]
+  /\ signed' = [signed EXCEPT ![p.m] = @ \cup {<<p.s, p.id, p.pl>>}]
+  /\ pend' = (pend \ {p}) \cup {[p EXCEPT !.st = "ok"]}
+  /\ UNCHANGED <<cfg, known, raw, relay, client>>
+FRet(p) ==
+  /\ p \in pend /\ p.st \in {"ok", "no"}
+  /\ pend' = pend \ {p}
+  /\ known' = IF p.st = "ok" THEN known \cup {Sig(p.m, p.s, p.id, p.pl)} ELSE known
+  /\ UNCHANGED <<cfg, dedup, signed, raw, relay, client>>
 FSend(f, r, s, id, pl, sigs) ==
   /\ f \in Faulty /\ r \in Honest
   /\ \A i \in DOMAIN sigs : Forgeable(sigs[i])
   /\ ~(AllowRelay /\ IsRelay(f, s, id, pl, sigs))
   /\ Deliver(r, s, f, id, pl, sigs)
-  /\ UNCHANGED <<cfg, dedup, signed, known, relay, client>>
+  /\ UNCHANGED <<cfg, dedup, signed, known, relay, client, pend>>
 \* DEVIATION (known finding C13-relay-foreign-payload): the callback of r is invoked for it, attributed to f
 RelayForeignPayload(f, r, s, id, pl, sigs) ==
   /\ AllowRelay
@@ -167,7 +199,7 @@ RelayForeignPayload(f, r, s, id, pl, sigs) ==
   /\ \A i \in DOMAIN sigs : Forgeable(sigs[i])
   /\ IsRelay(f, s, id, pl, sigs)
   /\ relay' = [relay EXCEPT ![r][s] = @ \cup {[from |-> f, id |-> id, pl |-> pl]}]
-  /\ UNCHANGED <<cfg, dedup, signed, known, raw, client>>
+  /\ UNCHANGED <<cfg, dedup, signed, known, raw, client, pend>>
 
 ---------------------------------------------------------------------------------------------------
 (* A repertoire of signature lists for a faulty sender (used by the exhaustive configs and by schedule
@@ -217,8 +249,10 @@ DedupChecked == \A m \in Honest : \A s \in Sessions : \A t \in dedup[m][s] : t.i
 KnownGenuine == \A g \in known : g.by \in Honest /\ <<g.sess, g.id, g.pl>> \in signed[g.by]
 \* a delivery attributed to an honest sender is that sender's own payload
 HonestOrigin == \A r \in Honest : \A s \in Sessions : \A d \in raw[r][s] : d.from \in Honest => d.pl.origin = d.from
+\* a request in flight was really made by a faulty member to an honest one
+PendOK == \A p \in pend : p.req \in Faulty /\ p.m \in Honest
 Safety == AllSigned /\ OnlyAllowed /\ AgreementRaw /\ AgreementAccepted /\ RelayIsForeign
-          /\ DedupFunctional /\ DedupChecked /\ KnownGenuine /\ HonestOrigin
+          /\ DedupFunctional /\ DedupChecked /\ KnownGenuine /\ HonestOrigin /\ PendOK
 \* a slot of server.dedup is never released or overwritten, histories only grow
 Monotone == [][/\ \A m \in Honest : \A s \in Sessions : dedup[m][s] \subseteq dedup'[m][s] /\ raw[m][s] \subseteq raw'[m][s]
                                                            /\ relay[m][s] \subseteq relay'[m][s]
